@@ -86,7 +86,8 @@ func init() {
 				for _, h := range []string{"H12b", "H12c", "H12d"} {
 					js = append(js, job("fit", h, "big", big))
 				}
-				js = append(js, job("fit", "H12e", "big", big, "local", 0), job("fit", "H12e", "big", big, "local", 1))
+				js = append(js, job("fit", "H12e", "big", big, "local", 0, "mid", 0), job("fit", "H12e", "big", big, "local", 1, "mid", 0),
+					job("fit", "H12e", "big", big, "local", 0, "mid", 1))
 			}
 			return js
 		},
@@ -200,6 +201,7 @@ func init() {
 			}
 			// the record dispatcher from an arbitrary reference-timestamp state (shared with C13)
 			js = append(js, job("fit", "H13", "defkind", 0), job("fit", "H13b"))
+			js = append(js, job("fit", "H16c"), job("fit", "H16d"), job("fit", "H13e"), job("fit", "H02d"))
 			// streams at the size limits of the format (file_id record beyond the 4096-byte buffer, 90-field definition, 5 x 255 developer bytes)
 			for _, extra := range []int{0, 17} {
 				for _, chunk := range []int{0, 7} {
@@ -245,7 +247,7 @@ func init() {
 		Meta: "fit.Hmeta",
 		Jobs: func(tier string, meta map[string]int) []Job {
 			js := []Job{job("dyncrc16", "H04lin"), job("dyncrc16", "H04ker"), job("dyncrc16", "H04burst"), job("dyncrc16", "H14c"),
-				job("fit", "H04hdr", "size", 12), job("fit", "H04hdr", "size", 14), job("fit", "H04agree")}
+				job("fit", "H04hdr", "size", 12), job("fit", "H04hdr", "size", 14), job("fit", "H04agree", "chunk", 0), job("fit", "H04agree", "chunk", 1), job("fit", "H04agree", "chunk", 5)}
 			const fileLen = 14 + 34 + 2
 			bits := 8
 			if tier == "thorough" {
@@ -379,9 +381,10 @@ func init() {
 					js = append(js, job("fit", "H13d", "k", k, "comp", 1))
 				}
 			}
+			js = append(js, job("fit", "H13e"))
 			return js
 		},
-		MustReach: []string{"C13.def.replaces-its-slot", "C13.def.other-slots-untouched", "C13.data.undefined-slot-is-error", "C13.data.consumed-by-selected-slot", "C13.data.routed-by-selected-slot", "C13.data.definitions-never-written", "C13.dev.records-read-with-their-own-definition", "C13.dev.first-slot-descriptors-kept", "C13.redef.consumed-by-latest-definition", "C13.redef.slot-holds-exactly-the-latest-definition", "C13.chain.definitions-do-not-survive-into-the-next-file"},
+		MustReach: []string{"C13.def.replaces-its-slot", "C13.def.other-slots-untouched", "C13.data.undefined-slot-is-error", "C13.data.consumed-by-selected-slot", "C13.data.routed-by-selected-slot", "C13.data.definitions-never-written", "C13.dev.records-read-with-their-own-definition", "C13.dev.first-slot-descriptors-kept", "C13.redef.consumed-by-latest-definition", "C13.redef.slot-holds-exactly-the-latest-definition", "C13.chain.definitions-do-not-survive-into-the-next-file", "C13.first.undefined-slot-is-error"},
 		Bounds: map[string]interface{}{
 			"quick":    "one record (all 256 header bytes, arbitrary record bytes) through the real decodeFileData loop from a state where all 16 slots hold pairwise distinguishable definitions (different message, record length 2..17, alternating byte order) except at most one nil slot (17 choices); definition records carry one of three bodies (with/without one developer field): a different message, the slot's own layout with the opposite byte order, or the slot's definition verbatim; plus (H13b) two developer-field definitions for two local types (every slot and its two neighbours by bit flip, developer field sizes 1-4, both orders) followed by records of both; plus (H13c) every slot redefined with 0..2 fields of 1..3 bytes, either byte order, with/without 0..2 developer fields of 1..3 bytes, followed by a record of that slot and one of the next slot (arbitrary bytes); plus (H13d) a chain of two files where the second uses a local type (1..15, also through compressed headers for 1..3) only the first defines",
 			"thorough": "same",
@@ -429,10 +432,10 @@ func init() {
 					js = append(js, msgJobs(meta, "fit", "H02b", "maxb", maxb, "menu", menu, "first", first)...)
 				}
 			}
-			js = append(js, job("fit", "Hwide", "extra", 0, "hrlast", 0, "chunk", 0), job("fit", "Hwide", "extra", 0, "hrlast", 1, "chunk", 0))
+			js = append(js, job("fit", "Hwide", "extra", 0, "hrlast", 0, "chunk", 0), job("fit", "Hwide", "extra", 0, "hrlast", 1, "chunk", 0), job("fit", "H02d"))
 			return js
 		},
-		MustReach: []string{"C02.compatible-definition-accepted", "C02.compatible-record-decodes", "C02.value.scalar", "C02.value.time", "C02.value.localtime", "C02.value.lat", "C02.value.lng", "C02.value.string", "C02.value.string-array", "C02.value.array-element", "C02.absent-fields-invalid", "compared", "C02.multi.definition-accepted", "C02.multi.record-decodes", "C02.multi.absent-fields-invalid", "C02.multi.consumed", "compared-multi", "C02.second-record-decodes", "compared-second", "C02.wide.values"},
+		MustReach: []string{"C02.compatible-definition-accepted", "C02.compatible-record-decodes", "C02.value.scalar", "C02.value.time", "C02.value.localtime", "C02.value.lat", "C02.value.lng", "C02.value.string", "C02.value.string-array", "C02.value.array-element", "C02.absent-fields-invalid", "compared", "C02.multi.definition-accepted", "C02.multi.record-decodes", "C02.multi.absent-fields-invalid", "C02.multi.consumed", "compared-multi", "C02.second-record-decodes", "compared-second", "C02.wide.values", "C02.skip.following-record-undisturbed"},
 		Bounds: map[string]interface{}{
 			"quick":    "single-field definitions: every profile message x every listed field x every compatible (base type, size) pair x both byte orders x all data bytes, compared with a reference decoder, each followed by a second record under the same definition that carries the invalid value; string sizes restricted to {0..8,16,127,128,254,255}; string arrays: sizes 0..6 fully symbolic, larger sizes with one terminator at any position; two-field definitions (H02b): a disturber (time/coordinate field at any compatible width, unlisted field of 1-4 bytes, developer field of 1-4 bytes, string of 1-3 bytes, array of 1-2 elements) before or after any known scalar field among the message's first 3 struct fields at its profile type, both byte orders, all data bytes",
 			"thorough": "as quick with every string size 0..255, two terminators in string arrays of up to 24 bytes, and the first 8 struct fields as neighbours in H02b",
@@ -650,11 +653,12 @@ func init() {
 			}
 			js = append(js, job("fit", "H07a", "ti", 3, "gmn", 0, "mode", mode), job("fit", "H07a", "ti", 3, "gmn", 49, "mode", mode), job("fit", "H07a", "ti", 3, "gmn", 162, "mode", mode),
 				job("fit", "H07a", "ti", 3, "gmn", 206, "mode", mode), job("fit", "H07a", "ti", 3, "gmn", 207, "mode", mode))
+			js = append(js, job("fit", "H07b"))
 			return js
 		},
-		MustReach: []string{"C07.values.scalar", "C07.values.array-up-to-profile-length", "C07.values.string-up-to-profile-length", "C07.encode-accepts-decoded", "C07.output-passes-checkintegrity", "C07.output-decodes", "C07.second-encode", "C07.fixpoint", "C07.counts", "roundtrip"},
+		MustReach: []string{"C07.values.scalar", "C07.values.array-up-to-profile-length", "C07.values.string-up-to-profile-length", "C07.encode-accepts-decoded", "C07.output-passes-checkintegrity", "C07.output-decodes", "C07.second-encode", "C07.fixpoint", "C07.counts", "roundtrip", "C07.header-versions-kept", "accepted", "rejected"},
 		Bounds: map[string]interface{}{
-			"quick":    "one message produced by the real record parser from any accepted single-field definition of a string or array field (every hosted message, both byte orders, arbitrary data) stored in a File as Decode stores it; strings: sizes 1-3 fully symbolic and sizes L-1, L, L+1 around the profile length L with an ASCII prefix and three arbitrary final bytes; arrays: up to 4 elements, the profile length, one more, and 255 bytes; then Encode, CheckIntegrity, Decode, Encode, Decode",
+			"quick":    "one message produced by the real record parser from any accepted single-field definition of a string or array field (every hosted message, both byte orders, arbitrary data) stored in a File as Decode stores it; strings: sizes 1-3 fully symbolic and sizes L-1, L, L+1 around the profile length L with an ASCII prefix and three arbitrary final bytes; arrays: up to 4 elements, the profile length, one more, and 255 bytes; then Encode, CheckIntegrity, Decode, Encode, Decode (the two encodings in opposite byte orders); plus (H07b) a small concrete file whose header protocol-version and profile-version bytes are arbitrary, 12- or 14-byte header, header CRC computed or 0: whatever Decode accepts is re-encoded in either byte order",
 			"thorough": "as quick for every field (scalars included) and every hosting file type",
 		},
 		Outside: []string{"inputs with several records or several fields per definition; whole device files; strings with more than three non-ASCII bytes"},
@@ -678,7 +682,7 @@ func kindSeqs(n int) []int {
 }
 
 func init() {
-	streamModel := "streams of the harness's FIT stream model: an activity file (12- or 14-byte header) with a file_id record, eight definitions (record with heart rate only for compressed-timestamp headers, record little-endian with timestamp, unknown message with arbitrary unknown number, record big-endian with an arbitrary unlisted field, record with two developer fields, lap, activity, record with one developer field defined last) one plain record, and then n data records of any of 10 kinds (record, unknown message, record with unlisted field, two-developer-field record, compressed-timestamp record, lap, activity with timestamp and local timestamp, compressed-timestamp header on the unknown message, compressed-timestamp header on a second file_id record, one-developer-field record) in every order, all field bytes arbitrary"
+	streamModel := "streams of the harness's FIT stream model: an activity file (14-byte header and a little-endian file_id definition with two fields, or 12-byte header and a big-endian file_id definition with three fields) with a file_id record, eight definitions (record with heart rate only for compressed-timestamp headers, record little-endian with timestamp, unknown message with arbitrary unknown number, record big-endian with an arbitrary unlisted field, record with two developer fields, lap, activity, record with one developer field defined last) one plain record, and then n data records of any of 10 kinds (record, unknown message, record with unlisted field, two-developer-field record, compressed-timestamp record, lap, activity with timestamp and local timestamp, compressed-timestamp header on the unknown message, compressed-timestamp header on a second file_id record, one-developer-field record) in every order, all field bytes arbitrary"
 	reg(&CheckDef{
 		ID: "C10",
 		Jobs: func(tier string, meta map[string]int) []Job {
@@ -763,7 +767,7 @@ func init() {
 					js = append(js, job("fit", "H16a", "n", nc, "kinds", k, "crc", (k+1)%2, "chunk", []int{0, 1, 3}[(k+1)%3], "cut", 1))
 				}
 			}
-			js = append(js, job("fit", "H16b", "n", 1), job("fit", "H16b", "n", 2), job("fit", "H16c"))
+			js = append(js, job("fit", "H16b", "n", 1), job("fit", "H16b", "n", 2), job("fit", "H16c"), job("fit", "H16d"))
 			if tier == "thorough" {
 				js = append(js, job("fit", "H16b", "n", 3))
 			}
@@ -796,6 +800,11 @@ func init() {
 				js = append(js, job("fit", "H08d", "n", n, "kinds", k))
 			}
 			js = append(js, job("fit", "H08b"), job("fit", "H08c"))
+			for _, k := range kindSeqs(n) {
+				if k%5 == 0 || tier == "thorough" {
+					js = append(js, job("fit", "H08g", "n", n, "kinds", k))
+				}
+			}
 			js = append(js, hostJobs(meta, "H08e", tier == "thorough")...)
 			js = append(js, job("fit", "Hwide8"))
 			for i, j := range msgJobs(meta, "fit", "H08f") {
